@@ -31,7 +31,38 @@ pub mod c17;
 
 use engine::{Property, Tier};
 
+/// Hidden property exercising the watchdog (`VERIF_SELFTEST=hang`, expect exit
+/// 2) and the crash isolation of the driver (`VERIF_SELFTEST=abort`, expect a
+/// VIOLATION naming the case 1234).
+fn selftest_property() -> Property {
+    use proptest::prelude::*;
+    fn strat(_: Tier) -> BoxedStrategy<u32> {
+        (0u32..2000).boxed()
+    }
+    fn run(c: &u32, _: &mut engine::Obs) -> engine::CheckResult {
+        if *c == 1234 {
+            match std::env::var("VERIF_SELFTEST").as_deref() {
+                Ok("hang") => loop {
+                    std::thread::sleep(std::time::Duration::from_millis(50));
+                },
+                Ok("abort") => std::process::abort(),
+                _ => {}
+            }
+        }
+        Ok(())
+    }
+    Property {
+        id: "SELFTEST",
+        rule: "",
+        assumptions: vec![],
+        subs: vec![engine::PropSub { name: "t", strategy: strat, cases: |_| 200_000, run, floors: &[] }.boxed()],
+    }
+}
+
 fn properties() -> Vec<fn() -> Property> {
+    if std::env::var("VERIF_SELFTEST").is_ok() {
+        return vec![selftest_property];
+    }
     vec![
         c01::property,
         c02::property,
@@ -66,18 +97,6 @@ fn main() {
     if args.first().map(|s| s.as_str()) == Some("selftest") {
         selftest();
         return;
-    }
-    if args.first().map(|s| s.as_str()) == Some("selftest-hang") {
-        // exercises the watchdog: run with VERIF_WATCHDOG=3, expect exit 2
-        use proptest::prelude::*;
-        fn strat(_: Tier) -> BoxedStrategy<u32> { (0u32..2000).boxed() }
-        fn run(c: &u32, _: &mut engine::Obs) -> engine::CheckResult {
-            if *c == 1234 { loop { std::thread::sleep(std::time::Duration::from_millis(50)); } }
-            Ok(())
-        }
-        let p = Property { id: "SELFTEST", rule: "", assumptions: vec![], subs: vec![
-            engine::PropSub { name: "hang", strategy: strat, cases: |_| 1_000_000, run, floors: &[] }.boxed()] };
-        std::process::exit(engine::run_property(p, Tier::Quick).exit);
     }
     if args.len() < 2 {
         eprintln!("usage: vcheck <id> quick|thorough | vcheck <id> --replay <file>");
